@@ -148,6 +148,20 @@ func (db *DB) reconstructSSTables() error {
 				return err
 			}
 
+			// a table whose flush did not finish can't be loaded, its content is still in the WAL and will be replayed
+			incomplete, err := isIncompleteSSTable(p)
+			if err != nil {
+				return err
+			}
+			if incomplete {
+				log.Printf("found unfinished sstable to be deleted in %v", p)
+				err = os.RemoveAll(p)
+				if err != nil {
+					return err
+				}
+				continue
+			}
+
 			reader, err := sstables.NewSSTableReader(
 				sstables.ReadBasePath(p),
 				sstables.ReadWithKeyComparator(db.cmp),
@@ -166,6 +180,36 @@ func (db *DB) reconstructSSTables() error {
 	}
 
 	return nil
+}
+
+// isIncompleteSSTable tells whether the process died while the table at the given path was being written by a flush.
+// The WAL of a memstore is only removed after its table was closed, so nothing is lost by discarding such a table.
+func isIncompleteSSTable(tablePath string) (bool, error) {
+	// the metadata is created empty when the table is opened for writing and is the last thing written when it is closed
+	metaStat, err := os.Stat(filepath.Join(tablePath, sstables.MetaFileName))
+	if err == nil {
+		return metaStat.Size() == 0, nil
+	}
+	if !os.IsNotExist(err) {
+		return false, err
+	}
+
+	// no metadata at all: either this is a table of an old format version, or the process died even before the metadata
+	// file was created. In the latter case no record was written yet, it's enough to check for the headers of the other files.
+	for _, name := range []string{sstables.IndexFileName, sstables.DataFileName} {
+		stat, err := os.Stat(filepath.Join(tablePath, name))
+		if os.IsNotExist(err) {
+			return true, nil
+		}
+		if err != nil {
+			return false, err
+		}
+		if stat.Size() < recordio.FileHeaderSizeBytes {
+			return true, nil
+		}
+	}
+
+	return false, nil
 }
 
 func (db *DB) replayAndSetupWriteAheadLog() error {
